@@ -11,6 +11,7 @@ package bindhist
 
 import (
 	"bytes"
+	"encoding/hex"
 	"fmt"
 	"math"
 	"reflect"
@@ -226,6 +227,29 @@ type OptColl struct {
 	Z  int64
 }
 
+// Conv: fields of Go types the schema knows as Int, String and Bytes through custom converters
+// (bindnode.Typed*Converter options given to every binding call).
+type Celsius struct{ Milli int64 }
+type Tag struct{ Parts []string }
+type Blob struct{ Hex string }
+type Conv struct {
+	T  Celsius
+	OT *Celsius
+	NT *Celsius
+	G  Tag
+	B  Blob
+	L  []Celsius
+}
+
+var convOpts = []bindnode.Option{
+	bindnode.TypedIntConverter(&Celsius{}, func(i int64) (interface{}, error) { return &Celsius{Milli: i}, nil },
+		func(v interface{}) (int64, error) { return v.(*Celsius).Milli, nil }),
+	bindnode.TypedStringConverter(&Tag{}, func(s string) (interface{}, error) { return &Tag{Parts: strings.Split(s, "/")}, nil },
+		func(v interface{}) (string, error) { return strings.Join(v.(*Tag).Parts, "/"), nil }),
+	bindnode.TypedBytesConverter(&Blob{}, func(b []byte) (interface{}, error) { return &Blob{Hex: hex.EncodeToString(b)}, nil },
+		func(v interface{}) ([]byte, error) { return hex.DecodeString(v.(*Blob).Hex) }),
+}
+
 // UK2 is a kinded union whose members include structs that are not maps in representation.
 type UK2 struct {
 	T *Tuple
@@ -298,6 +322,7 @@ type OptV struct { A optional String  L [Int]  M OMap }
 type MapOpt {String:OptV}
 type HasMapOpt struct { M MapOpt }
 type OptColl struct { L optional StrList  B nullable Bytes  M optional OMap  NL nullable IntList  OB optional Bytes  Z Int }
+type Conv struct { T Int  OT optional Int  NT nullable Int  G String  B Bytes  L [Int] }
 type UK2 union { | Tuple list | Joined string | Int int } representation kinded
 type HasUK2 struct { A UK2  B UK2  C UK2  D UK2 }
 type UList [Int]
@@ -327,6 +352,7 @@ type vtype struct {
 	ptr               func() interface{}           // nil pointer of the Go type, for Prototype
 	vals              []func() interface{}         // fresh pointers to values
 	expect            func(v interface{}) *model.V // hand-written type-level AV (nil: not sampled)
+	opts              []bindnode.Option            // custom converters the binding is made with (every call gets them)
 }
 
 var vocab = []vtype{
@@ -490,6 +516,15 @@ var vocab = []vtype{
 					"full": {A: sp("present"), L: []int64{1, 2, 3}, M: OMap{Keys: []string{"k"}, Values: map[string]int64{"k": 9}}},
 					"bare": {A: nil, L: []int64{}, M: OMap{Keys: []string{}, Values: map[string]int64{}}},
 					"mid":  {A: nil, L: []int64{7}, M: OMap{Keys: []string{"z"}, Values: map[string]int64{"z": -1}}}}}}
+			},
+		}},
+	{name: "Conv", schema: "Conv", opts: convOpts, ptr: func() interface{} { return (*Conv)(nil) },
+		vals: []func() interface{}{
+			func() interface{} {
+				return &Conv{T: Celsius{21500}, OT: &Celsius{-1}, NT: &Celsius{0}, G: Tag{[]string{"a", "b", "c"}}, B: Blob{"00ff10"}, L: []Celsius{{1}, {2}, {-3}}}
+			},
+			func() interface{} {
+				return &Conv{T: Celsius{math.MinInt64}, G: Tag{[]string{""}}, B: Blob{""}, L: []Celsius{}}
 			},
 		}},
 	{name: "OptColl", schema: "OptColl", ptr: func() interface{} { return (*OptColl)(nil) },
@@ -766,8 +801,8 @@ func Exec(o Op) (out string) {
 	}()
 	switch o.Kind {
 	case 0:
-		proto := bindnode.Prototype(vt.ptr(), st)
-		src := bindnode.Wrap(val, st)
+		proto := bindnode.Prototype(vt.ptr(), st, vt.opts...)
+		src := bindnode.Wrap(val, st, vt.opts...)
 		// build at type level from the wrapped value's content, then at representation level
 		nb := proto.NewBuilder()
 		if err := datamodel.Copy(src, nb); err != nil {
@@ -821,7 +856,7 @@ func Exec(o Op) (out string) {
 			}
 			fresh := vt.vals[o.Val%len(vt.vals)]() // the source of this round: wrapped, assigned from, then changed
 			b4 := proto.NewBuilder()
-			from = bindnode.Wrap(fresh, st)
+			from = bindnode.Wrap(fresh, st, vt.opts...)
 			if repr {
 				b4, from = proto.Representation().NewBuilder(), from.(schema.TypedNode).Representation()
 			}
@@ -836,7 +871,7 @@ func Exec(o Op) (out string) {
 		}
 		return out
 	case 1:
-		n := bindnode.Wrap(val, st)
+		n := bindnode.Wrap(val, st, vt.opts...)
 		out = "type=" + avh(n) + " repr=" + avh(n.Representation())
 		if vt.expect != nil {
 			if got, err := model.FromNode(n); err != nil || !model.Equal(got, vt.expect(val)) {
@@ -882,7 +917,7 @@ func Exec(o Op) (out string) {
 				content.Vals[i] = c.v
 			}
 		}
-		nb := bindnode.Prototype(vt.ptr(), st).NewBuilder()
+		nb := bindnode.Prototype(vt.ptr(), st, vt.opts...).NewBuilder()
 		if err := model.Assemble(nb, content, linkOf, nil); err != nil {
 			return "refused " + c.field + "=" + c.v.String()
 		}
@@ -919,12 +954,12 @@ func Exec(o Op) (out string) {
 		}
 		return out
 	case 2:
-		b, err := ipld.Marshal(enc, val, st)
+		b, err := ipld.Marshal(enc, val, st, vt.opts...)
 		if err != nil {
 			return "ERR:marshal: " + err.Error()
 		}
 		fresh := reflect.New(reflect.TypeOf(val).Elem()).Interface()
-		if _, err := ipld.Unmarshal(b, dec, fresh, st); err != nil {
+		if _, err := ipld.Unmarshal(b, dec, fresh, st, vt.opts...); err != nil {
 			return fmt.Sprintf("bytes=%x ERR:unmarshal: %s", sim.HashString(string(b)), err.Error())
 		}
 		out = fmt.Sprintf("bytes=%x", sim.HashString(string(b)))
@@ -938,7 +973,7 @@ func Exec(o Op) (out string) {
 			out += " FID:marshal-unmarshal-roundtrip=false"
 		}
 		// marshalling again gives the same bytes
-		if b2, err := ipld.Marshal(enc, fresh, st); err != nil || !bytes.Equal(b, b2) {
+		if b2, err := ipld.Marshal(enc, fresh, st, vt.opts...); err != nil || !bytes.Equal(b, b2) {
 			out += " FID:remarshal-same-bytes=false"
 		}
 		return out
@@ -967,7 +1002,7 @@ func NewTypeSystem() *schema.TypeSystem {
 // SampleIn is Sample with the explicit schema taken from the given type system.
 func SampleIn(tsys *schema.TypeSystem, which, val int) (name string, n schema.TypedNode) {
 	vt := vocab[which%len(vocab)]
-	return vt.name, bindnode.Wrap(vt.vals[val%len(vt.vals)](), tsys.TypeByName(vt.schema))
+	return vt.name, bindnode.Wrap(vt.vals[val%len(vt.vals)](), tsys.TypeByName(vt.schema), vt.opts...)
 }
 
 // VocabSize is the number of types in the vocabulary.
